@@ -53,11 +53,13 @@ def hasEsc : List Item → Bool
   | .raw _ :: r => hasEsc r
   | _ :: _ => true
 
-/-- item well-formedness as the go-json scanner sees it (raw control bytes allowed, not NUL) -/
-abbrev WF (i : Item) : Prop := i.wf false = true
+/-- item well-formedness as the go-json scanner sees it: RFC 8259 (raw control bytes are rejected
+since the repair of D02) -/
+abbrev WF (i : Item) : Prop := i.wf true = true
 
-theorem raw_wf {b : UInt8} (h : WF (.raw b)) : b ≠ 34 ∧ b ≠ 92 ∧ b ≠ 0 := by
-  simp [WF, Item.wf] at h; exact ⟨h.1.1, h.1.2, h.2⟩
+theorem raw_wf {b : UInt8} (h : WF (.raw b)) : b ≠ 34 ∧ b ≠ 92 ∧ b ≠ 0 ∧ ¬ b.toNat < 32 := by
+  simp [WF, Item.wf] at h
+  exact ⟨h.1.1.1, h.1.1.2, h.1.2, by omega⟩
 
 /-- the scan loop accepts a rendered item list up to the closing quote and reports its extent -/
 theorem scanBody_render (items : List Item) (rest : List UInt8) (hw : ∀ i ∈ items, WF i) :
@@ -74,10 +76,10 @@ theorem scanBody_render (items : List Item) (rest : List UInt8) (hw : ∀ i ∈ 
     rw [renderAll_cons]
     cases it with
     | raw b =>
-      obtain ⟨h1, h2, h3⟩ := raw_wf hit
+      obtain ⟨h1, h2, h3, h4⟩ := raw_wf hit
       simp only [Item.render, List.cons_append, List.nil_append]
       unfold scanBody
-      simp [h1, h2, h3, ih', hasEsc]
+      simp [h1, h2, h3, h4, ih', hasEsc]
     | simple e =>
       have he : isSimpleEsc e = true := by
         rw [isSimpleEsc_eq]; simpa [WF, Item.wf] using hit
